@@ -94,10 +94,7 @@ def reinterpret_expr(expr, symbols_from, symbols_to):
             elif op == OP_CONSTPOW:
                 work[o[0]] = work[i[0]]**work[i[1]]
             else:
-                print('Unknown operation: ', op)
-
-                print('------')
-                print('Evaluated ' + str(f))
+                raise Exception("Unsupported operation (code %d) in an expression that must be a polynomial of the states: %s" % (op, str(f.instruction_MX(k))))
 
     return output_val[0]
 
